@@ -396,6 +396,8 @@ def sort_of(v):
 
 def to_z3(v, sort=None):
     """Lower a symbolic value to one z3 expression (for storing in arrays / comparing)."""
+    if isinstance(v, VModel) and hasattr(v, "as_value"):
+        v = v.as_value()
     if isinstance(v, bool):
         return z3.BoolVal(v)
     if isinstance(v, int):
